@@ -38,6 +38,11 @@ func VerifHarness_C02_validate_block() {
 	h := vNewCS(n, 5, -1)
 	cs := h.cs
 	st := cs.state
+	if vNondetBool("prior-state-without-hashes") {
+		// as at the first height (or with an application that reports no hashes): a block must then
+		// carry EMPTY app / receipts hashes — anything else is not what the prior state says
+		st.AppHash, st.ReceiptsHash = nil, nil
+	}
 	other := types.BlockID{Hash: []byte{0x66}, PartsHeader: types.PartSetHeader{Total: 1, Hash: []byte{0x66}}}
 	bad := []byte{0xEE, 0xEE}
 
